@@ -34,9 +34,10 @@ def to_oa_date(date):
 
 
 def to_date(oadate):
-    value = oadate - DAYS_EPOCH
-    year = 1970
-    while value > year_days(year):
+    # day 2 is 1900-01-01, see to_oa_date
+    value = oadate - 2
+    year = 1900
+    while value >= year_days(year):
         value -= year_days(year)
         year += 1
     month = 0
